@@ -62,9 +62,18 @@ fn main() {
                 .iter()
                 .map(|(b, n, w)| serde_json::json!({"byte":b,"name":n,"widths":w}))
                 .collect();
+            // the compiler's numbering of the builtins, by name
+            let mut names = vec![String::new(); nederlang::verif::builtin_count() as usize];
+            for n in ["print", "type", "bool", "float", "int", "string", "lengte"] {
+                if let Some(b) = nederlang::verif::builtin_number(n) {
+                    if (b as usize) < names.len() {
+                        names[b as usize] = n.to_string();
+                    }
+                }
+            }
             println!(
                 "{}",
-                serde_json::json!({"ops":v,"builtins":nederlang::verif::builtin_count()})
+                serde_json::json!({"ops":v,"builtins":nederlang::verif::builtin_count(),"builtin_names":names})
             );
         }
         "gen-sem" => semfam::gen_sem(&args),
@@ -79,6 +88,7 @@ fn main() {
         "gen-enum" => seqfam::gen_enum(&args),
         "replay-parse" => parsefam::replay_parse(&args),
         "gen-parse" => parsefam::gen_parse(&args),
+        "gen-parseany" => parsefam::gen_parseany(&args),
         "gen-lex" => lexfam::gen_lex(&args),
         "gen-total" => totalfam::gen_total(&args),
         "gen-enc" => encfam::gen_enc(&args),
